@@ -187,6 +187,8 @@ def path_atoms(fnode, node):
         if isinstance(p, ast.If) and cur is not p.test:
             in_body = any(cur is s for s in p.body)
             out += atoms(p.test, negate=not in_body)
+        if isinstance(p, ast.IfExp) and cur is not p.test:
+            out += atoms(p.test, negate=cur is p.orelse)
         # earlier guard statements in the same block
         for fld in ("body", "orelse", "finalbody"):
             blk = getattr(p, fld, None)
